@@ -190,6 +190,50 @@ def size_limit_cases():
     return out
 
 
+def invalid_name_cases():
+    """a message naming an invalid path, interface, member, destination or error name cannot be constructed"""
+    from txdbus import message
+    from txdbus.error import MarshallingError
+    bad = {'path': ['', 'a', '/a/', '/a//b', '/a.b', '/\u00e9'], 'interface': ['', 'a', 'a.', '.a.b', 'a..b', 'a.1b', 'a b.c'],
+           'member': ['', '1a', 'a.b', 'a-b', 'a b'], 'destination': ['', 'a', ':1', ':.a', 'a.b.', ':1..2', 'a.b c'], 'error_name': ['', 'a', 'a.', 'a..b']}
+    mk = {'MethodCallMessage': lambda **k: message.MethodCallMessage(k.get('path', '/p'), k.get('member', 'M'), interface=k.get('interface'), destination=k.get('destination')),
+          'SignalMessage': lambda **k: message.SignalMessage(k.get('path', '/p'), k.get('member', 'M'), k.get('interface', 'a.b'), destination=k.get('destination')),
+          'MethodReturnMessage': lambda **k: message.MethodReturnMessage(1, destination=k.get('destination')),
+          'ErrorMessage': lambda **k: message.ErrorMessage(k.get('error_name', 'a.b'), 1, destination=k.get('destination'))}
+    takes = {'MethodCallMessage': ('path', 'member', 'interface', 'destination'), 'SignalMessage': ('path', 'member', 'interface', 'destination'),
+             'MethodReturnMessage': ('destination',), 'ErrorMessage': ('error_name', 'destination')}
+    for cls, fields in takes.items():
+        for f in fields:
+            for v in bad[f]:
+                try:
+                    mk[cls](**{f: v})
+                except MarshallingError:
+                    continue
+                except Exception as e:
+                    return '%s with %s=%r raised %s instead of MarshallingError' % (cls, f, v, type(e).__name__)
+                return '%s with the invalid %s %r was constructed' % (cls, f, v)
+    return None
+
+
+def descriptor_header_cases():
+    """the unix_fds header appears exactly once in a message that carries descriptors - however many such messages were built
+    before - and never in one that carries none"""
+    from txdbus import message
+    for round_ in range(3):
+        fds = []
+        m = message.MethodCallMessage('/p', 'M', interface='a.b', signature='hs', body=[5, 'x'], oobFDs=fds)
+        vals, _ = W.decode(HDR, m.rawMessage, 0, True)
+        codes = [c for c, _v in vals[6]]
+        if codes.count(9) != 1 or len(set(codes)) != len(codes):
+            return 'descriptor-carrying call #%d has header field codes %r' % (round_ + 1, codes)
+        plain = message.MethodCallMessage('/p', 'M', interface='a.b', signature='s', body=['x'])
+        vals, _ = W.decode(HDR, plain.rawMessage, 0, True)
+        codes = [c for c, _v in vals[6]]
+        if 9 in codes or len(set(codes)) != len(codes):
+            return 'a call without descriptors built after %d descriptor-carrying ones has header field codes %r' % (round_ + 1, codes)
+    return None
+
+
 def bounded(tier, seed):
     rnd = random.Random(seed * 613 + 3)
     n = 0
@@ -238,6 +282,11 @@ def bounded(tier, seed):
             f, raw = foreign_case(rnd, kind, fields, flags, serial, body_sig, body_vals, le)
             if f:
                 return n, f, {'raw': raw.hex()}
+    for case in (invalid_name_cases, descriptor_header_cases):
+        n += 1
+        f = case()
+        if f:
+            return n, f, {'case': case.__name__}
     for f in size_limit_cases():
         return n + 1, f, {'case': 'size limit'}
     n += 4
